@@ -4,13 +4,13 @@ any/anywhere, literal, cargo_helper, nested adjacent groups, the documentation e
 import glob, os, shutil, subprocess
 from vlib import *
 
-SCRATCH = "/tmp/bpaf-suite-trace"
+SCRATCH = "/tmp/bpaf-suite-trace" + os.path.basename(WORK)[4:]
 
 
 def run_suite_trace(v):
     shutil.rmtree(SCRATCH, ignore_errors=True)
     try:
-        r = subprocess.run(["rsync", "-a", "--exclude", "target", "--exclude", ".git", "/repo/", SCRATCH + "/"], capture_output=True, text=True)
+        r = subprocess.run(["rsync", "-a", "--exclude", "target", "--exclude", ".git", REPO + "/", SCRATCH + "/"], capture_output=True, text=True)
         if r.returncode != 0:
             raise ToolError("rsync failed: " + r.stderr[-500:])
         tdir = os.path.join(SCRATCH, "_trace")
